@@ -267,6 +267,12 @@ def evaluate(ctx, ev, cfg, clean, case, recs, stats):
     for si, rec in enumerate(recs):
         last = si == len(case["steps"]) - 1
         step_id = {"config": cfg, "case": case["steps"], "step": si}
+        if rec["outcome"] not in ("timeout", "harness-error") and rec.get("lingering"):
+            # threads of the run were still alive when the injector stopped recording: the trace may be
+            # incomplete and the directory may still change -- nothing can be concluded from this run
+            stats["inconclusive"] += 1
+            ctx.notes.append("inconclusive run (threads still alive after make) %s %s" % (name, case["steps"]))
+            return
         if rec["outcome"] in ("timeout", "harness-error"):
             stats["inconclusive"] += 1
             ctx.notes.append("inconclusive run (%s) %s %s: %s" % (rec["outcome"], name, case["steps"], rec["exc"][:200]))
@@ -326,14 +332,18 @@ def evaluate(ctx, ev, cfg, clean, case, recs, stats):
 
             def judge(m, line, out, k=k, aevs=aevs, fs1=fs1, d=d, rec=rec, step_id=step_id, js=judge_state):
                 stats["replay"] += 1
-                real_fs = ab.norm_fs(ab.s_fs(fs1))
+                # files whose write was in flight when the process died: how much of them reached the disk
+                # depends on buffering and timing -- their content is not compared
+                racy = ["meta" if op[0] == "meta" else "t%d" % op[1] for op, oc, info in aevs
+                        if info.get("inflight") and op[0] in ("meta", "wtmp")]
+                real_fs = ab.mask_files(ab.norm_fs(ab.s_fs(fs1)), racy)
                 obs = rec["obs"][d]
                 if m.get("run") != "1":
                     ctx.violation("fs_semantics", "the recorded operations of %s cannot be executed on the model file system (%s)" % (k, ab.s_events(aevs)),
                                   {"input": "corr:C04/fs_semantics/replay", "case": step_id, "key": k, "model": out, "trace": ab.s_events(aevs)},
                                   no_failing_input=not js["pf"])
                     return
-                if ab.norm_fs(m["fs"]) != real_fs:
+                if ab.mask_files(ab.norm_fs(m["fs"]), racy) != real_fs:
                     ctx.violation("fs_semantics", "model and real directory differ after %s: model %s real %s" % (ab.s_events(aevs), m["fs"], real_fs),
                                   {"input": "corr:C04/fs_semantics/replay", "case": step_id, "key": k, "model": m["fs"], "real": real_fs,
                                    "trace": ab.s_events(aevs)}, no_failing_input=not js["pf"])
@@ -504,7 +514,7 @@ def op_points(clean):
 def make_cases(ctx, ci, cfg, clean):
     tier = "thorough" if (ctx.thorough or ctx.escalated()) else "quick"
     acts = ACTIONS[tier]
-    pts = op_points(clean)
+    pts = sorted(op_points(clean), key=lambda x: (x[0][0], x[1], x[0][2], x[0][3]))
     cases = []
     for (sid, kind, worker) in pts:
         for a in acts[kind]:
@@ -535,8 +545,12 @@ def make_cases(ctx, ci, cfg, clean):
             if slow is None:
                 continue
             for mo in m_open[:2]:
+                # late_write: the failing flush waits until the pooled write has opened its file, so that the file
+                # is open across the directory rename
+                after = [[list(mo), list(w_open[0])]] if tag == "late_write" else []
                 cases.append({"id": None, "cfg": cfg, "worker": False, "kind": tag, "action": "raise",
-                              "steps": [{"plan": [[list(mo), "raise"]], "delay": [[list(slow), 1.0]]}, {"plan": []}]})
+                              "steps": [{"plan": [[list(mo), "raise"]], "delay": [[list(slow), 1.0]], "after": after},
+                                        {"plan": []}]})
     # a plugin (not a file operation) fails, then a clean retry
     dts = graphs.data_types(cfg["graph"])
     plug = [d for d in dts if d != "lone"]
@@ -547,6 +561,17 @@ def make_cases(ctx, ci, cfg, clean):
     for d, i in crash_list:
         cases.append({"id": None, "cfg": cfg, "steps": [{"plan": [], "crash_at": [d, i]}, {"plan": []}],
                       "worker": False, "kind": "plugin", "action": "plugin_exception"})
+    # forced interleaving (threaded processor): the last plugin fails on its last chunk.  The saver of the first
+    # data type has by then usually consumed its whole source and closes normally (complete data, no `exception`);
+    # with its closing flush made slow it is killed first and records the exception.  Both are legal.
+    if cfg["proc"] == "threaded_mailbox" and len(plug) > 1:
+        first_key = [k for k in keys if runner.key_dtype(k) == dts[0]]
+        closing = sorted([s_ for s_, kd, w in pts if kd == "open_w" and s_[2].endswith("metadata.json")
+                          and first_key and s_[0] == first_key[0] + "_temp"], key=lambda x: x[3])
+        for delay in ([], [[list(closing[-1]), 1.0]] if closing else []):
+            cases.append({"id": None, "cfg": cfg, "worker": False, "kind": "plugin_last" + ("_slow_close" if delay else ""),
+                          "action": "plugin_exception",
+                          "steps": [{"plan": [], "crash_at": [plug[-1], n_chunks - 1], "delay": delay}, {"plan": []}]})
     # every target of the graph (thorough): the fault sweep above uses the graph's last plugin as target
     for c in cases:
         c["shas"] = clean["shas"]
